@@ -18,7 +18,7 @@
 // next successful Commit every answer that depends on the remote is replaced by `undet`.
 //
 //	cache drive [-stats <file>] [-nohash] [-watchdog <s>]   op lines on stdin -> result lines, real code of /repo
-//	        (-watchdog: seconds after which a call that has not returned is answered `hang`; default 20)
+//	        (-watchdog: seconds after which a call that has not returned is answered `hang`; default 10)
 //	cache gen <n> [<shard> <nshards>]          n random histories (this shard's share), seeded from VERIF_SEED
 //	cache genclean <n> [<shard> <nshards>]     histories restricted to the class of commit_equiv_partial (C06)
 //	cache genryw <n> [<shard> <nshards>]       histories restricted to the class of ryw_partial (C07; no commits)
@@ -150,6 +150,9 @@ func cachesOf(s *fsdrv.Session) map[FS]*cacheInfo {
 }
 
 func init() {
+	// a call that has not returned after this time is answered `hang` (generous: every call of this family is a
+	// handful of in-memory operations); `drive -watchdog <s>` overrides it
+	fsdrv.Watchdog = 10 * time.Second
 	fsdrv.RegisterKind("cache", func(s *fsdrv.Session, args []string) (fsdrv.FS, error) {
 		if len(args) != 1 {
 			return nil, fsdrv.ErrBadOp
